@@ -109,7 +109,7 @@ def build_dt(dt):
     if t == 'bool':
         return D.BoolType()
     if t == 'scaled':
-        return D.ScaledInteger(SCALE, dt['lo'] * SCALE, dt['hi'] * SCALE)
+        return D.ScaledInteger(SCALE * (2 if dt.get('scale2') else 1), dt['lo'] * SCALE, dt['hi'] * SCALE)
     if t == 'blob':
         return D.BLOBType(dt['minb'], dt['maxb'])
     if t == 'limits':
@@ -323,8 +323,9 @@ def class_level(acc):
     for k in ('wire', 'ro'):
         if k in c:
             res[k] = c[k]
-    if 'lo' in c or 'hi' in c:
-        res['dt'] = dict(acc['dt'], **{k: c[k] for k in ('lo', 'hi') if k in c})
+    dtkeys = [k for k in ('lo', 'hi', 'maxc', 'maxlen', 'maxb', 'scale2') if k in c]
+    if dtkeys:       # (scale2: the class has twice the scale of the final datatype)
+        res['dt'] = dict(acc['dt'], **{k: c[k] for k in dtkeys})
     return res
 
 
@@ -342,6 +343,11 @@ def _final_props(attr, acc):
         res['min'] = acc['dt']['lo'] * scale
     if 'hi' in c:
         res['max'] = acc['dt']['hi'] * scale
+    for k, prop in (('maxc', 'maxchars'), ('maxlen', 'maxlen'), ('maxb', 'maxbytes')):
+        if k in c:
+            res[prop] = acc['dt'][k]
+    if 'scale2' in c:
+        res['scale'] = SCALE
     return res
 
 
@@ -605,19 +611,27 @@ class World:
             for a, acc in accs.items():
                 if acc['kind'] == 'param':        # (the cache of a constant holds the constant)
                     pobj = self.mods[mname].parameters[a]
-                    res[mname][a] = abs_value(acc['dt'], pobj.value) if pobj.readerror is None \
-                        else odd(pobj.readerror)
+                    res[mname][a] = abs_value(acc['dt'], pobj.value)
         return res
 
-    def force_cache(self, cache):
+    def rerr(self):
+        """which parameters are in the read-error state"""
+        return {mname: {a: self.mods[mname].parameters[a].readerror is not None
+                        for a, acc in accs.items() if acc['kind'] == 'param'} for mname, accs in self.shape.items()}
+
+    def force_cache(self, cache, rerr=None):
         """test set-up: put the parameters into a given state by internal assignment"""
-        cur = self.cache()
+        from frappy.errors import RangeError
+        cur, cure = self.cache(), self.rerr()
         for mname, vals in cache.items():
             for a, v in vals.items():
-                if cur[mname][a] != v:
+                want = (rerr or cure)[mname][a]
+                if cur[mname][a] != v or (cure[mname][a] and not want):
                     self.mods[mname].announceUpdate(a, internal(self.shape[mname][a]['dt'], v))
+                if want and not self.mods[mname].parameters[a].readerror:
+                    self.mods[mname].announceUpdate(a, err=RangeError('set-up'))
         del self.conn.msgs[:]
-        return self.cache() == cache
+        return self.cache() == cache and (rerr is None or self.rerr() == rerr)
 
     def request(self, req):
         """execute one abstract request -> observation in the spec's vocabulary"""
@@ -667,10 +681,13 @@ class World:
             ua, uacc = self.acc_by_wire(mod, name)
             if msg[0] == 'update' and uacc:
                 upd.append({'mod': mod, 'name': name, 'v': abs_value(uacc['dt'], msg[2][0], wire=True)})
+            elif msg[0] == 'error_update' and uacc:
+                upd.append({'mod': mod, 'name': name, 'v': {'k': 'err'}})       # an error instead of a value
             else:
                 upd.append({'mod': mod, 'name': name, 'v': odd(msg)})
         obs['upd'] = upd
         obs['cache'] = self.cache()
+        obs['rerr'] = self.rerr()
         return obs
 
 
@@ -693,6 +710,8 @@ def clauses(exp, obs):
         bad.append('hook.arg')
     if obs['cache'] != exp['cache']:
         bad.append('cache')
+    if obs['rerr'] != exp['rerr']:
+        bad.append('readerror')
     def key(u):
         return json.dumps(u, sort_keys=True)
     if exp.get('hassnap'):           # activate: exactly the snapshot updates (as a set)
@@ -1030,7 +1049,8 @@ def rand_shape(rnd):
                 else:
                     acc['drv'] = rnd.choice(['absent', 'none'])
             if const == NULL and rnd.random() < 0.3:
-                what = rnd.choice(['ro', 'wire'] + (['hi'] if numeric else []))
+                dk = {'string': 'maxc', 'array': 'maxlen', 'blob': 'maxb'}.get(dt['t'])
+                what = rnd.choice(['ro', 'wire'] + (['hi'] if numeric else []) + ([dk, dk] if dk else []))
                 acc['via'] = rnd.choice(['cfg', 'subclass'])
                 if what == 'ro' and const == NULL:
                     acc['cls'] = {'ro': not ro}
@@ -1039,6 +1059,13 @@ def rand_shape(rnd):
                 elif what == 'hi':
                     acc['cls'] = {'hi': dt['hi'] + rnd.randint(1, 2)}
                     acc['redecl'] = rnd.choice(['props', 'datatype'])
+                elif what in ('maxc', 'maxlen', 'maxb'):
+                    # the class datatype is wider than the configured one; the hardware may deliver a value that
+                    # only fits the class datatype (a read error, never an emitted value)
+                    acc['cls'] = {what: dt[what] + rnd.randint(1, 3)}
+                    if rnd.random() < 0.7:
+                        acc['rd'] = 'fixed'
+                        acc['rret'] = rand_valid(rnd, dict(dt, **acc['cls']))
                 if acc.get('cls') and acc['via'] == 'subclass' and acc.get('initvia') == 'bare':
                     acc['initvia'] = 'value'      # one assignment per class body
         for attr in rnd.sample(['go', 'stop', 'ca', 'cb'], rnd.randint(1, 2)):
